@@ -21,7 +21,8 @@ def families(tier):
         {'name': 'A5b', 'params': dict(base, hist='BMCB', modes=['ok'], mut_paths=['o/d', 'o/d/z', 'c/z']), 'weight': 4},
         {'name': 'A5a', 'params': dict(base, hist='BMC', modes=['ok'], mut_paths=['o', 'o/d/g', 'o/z']), 'weight': 2},
         {'name': 'A3', 'params': dict(base, hist='BFC', kinds=['is_file'], roles=['in/x'], targets=['o/d/g'], modes=['ok']), 'weight': 1},
-        {'name': 'A3', 'params': dict(base, hist='CB', kinds=['is_file'], roles=['in/x'], targets=['o/d/g'], modes=['ok']), 'weight': 1},
+        {'name': 'A3', 'params': dict(base, hist='CB', kinds=['is_file'], roles=['in/x'], targets=['o/d/g'], modes=['ok'], cache_spellings=True), 'weight': 1},
+        {'name': 'A3', 'params': dict(base, hist='BC', kinds=['is_file'], roles=['in/x'], targets=['o/d/g'], modes=['ok'], cache_spellings=True), 'weight': 1},
         {'name': 'A8', 'params': dict(base, hist='BBCB', kinds=['is_dir']), 'weight': 1},
         {'name': 'A4', 'params': dict(base, hist='BMC', kinds=['is_dir'], roles=['o'], targets=['o/d/g'],
                                       modes=['ok', 'raise_after'], mut_paths=mp), 'weight': 2},
